@@ -1,0 +1,60 @@
+//! Verification hooks for `node::subscriptions` (compiled only with `--cfg eigerco_lumina_verif`).
+//!
+//! Strictly additive: [`BroadcastSim`] owns the real `BroadcastingStore<InMemoryStore>` and
+//! forwards to its real operations, exposing only public types.
+
+use std::sync::Arc;
+
+use celestia_types::ExtendedHeader;
+use tokio::sync::broadcast;
+
+use super::BroadcastingStore;
+use crate::store::{InMemoryStore, StoreError};
+
+/// The real `BroadcastingStore` over an [`InMemoryStore`].
+pub struct BroadcastSim {
+    inner: BroadcastingStore<InMemoryStore>,
+}
+
+impl BroadcastSim {
+    /// `BroadcastingStore::new`.
+    pub fn new(store: Arc<InMemoryStore>) -> Self {
+        BroadcastSim {
+            inner: BroadcastingStore::new(store),
+        }
+    }
+
+    /// `BroadcastingStore::clone_inner_store` (what the syncer hands to `try_init`).
+    pub fn store(&self) -> Arc<InMemoryStore> {
+        self.inner.clone_inner_store()
+    }
+
+    /// `BroadcastingStore::init_broadcast` (called by the syncer after every successful `try_init`).
+    pub async fn init_broadcast(&mut self, head: ExtendedHeader) {
+        self.inner.init_broadcast(head).await;
+    }
+
+    /// `BroadcastingStore::subscribe`.
+    pub fn subscribe(&self) -> broadcast::Receiver<ExtendedHeader> {
+        self.inner.subscribe()
+    }
+
+    /// `BroadcastingStore::announce_insert`.
+    pub async fn announce_insert(&mut self, range: Vec<ExtendedHeader>) -> Result<(), StoreError> {
+        self.inner.announce_insert(range).await
+    }
+
+    /// Observation: `last_sent_height`.
+    pub fn last_sent_height(&self) -> Option<u64> {
+        self.inner.last_sent_height
+    }
+
+    /// Observation: (first, last) heights of every pending range, in internal order.
+    pub fn pending_ranges(&self) -> Vec<(u64, u64)> {
+        self.inner
+            .pending
+            .iter()
+            .filter_map(|r| Some((r.first()?.height(), r.last()?.height())))
+            .collect()
+    }
+}
